@@ -52,7 +52,7 @@ InOverlaySet    == {4, 5, 41}                \* 10.128.7.7  fd00:80::77  10.128.
 DeniedGlobalSet == {6, 8, 42}                \* 203.0.113.9 2001:db8:dead::8 203.0.113.5 remote_allow_list: false
 DeniedPeerSet   == {7, 43, 44}               \* 198.51.100.9 198.51.100.5 2001:db8:beef::9  remote_allow_ranges[10.128.1.0/24]: false
 DeniedLhSet     == {45, 46}                  \* 192.0.2.200 2001:db8:cafe::9            remote_allow_ranges[10.128.0.0/24]: false
-UFam(x) == IF x \in {3, 5, 8, 44, 46} THEN 6 ELSE 4  \* everything else: 192.0.2.x (and 2001:db8:1::3), allowed
+UFam(x) == IF x \in {3, 5, 8, 44, 46, 47, 48} THEN 6 ELSE 4  \* everything else: 192.0.2.x (and 2001:db8:1::3, ::47, ::48), allowed
 PreferredSet == {2, 5}                       \* preferred_ranges 192.0.2.2/32, fd00:80::/64
 
 InOverlay(x)    == x \in InOverlaySet
@@ -256,6 +256,8 @@ Claim(from, c) == CASE c = "pri" -> from[1]
 Payloads == [none |-> [v4 |-> <<>>, v6 |-> <<>>, rel |-> <<>>],
              v4   |-> [v4 |-> <<1>>, v6 |-> <<>>, rel |-> <<>>],
              all  |-> [v4 |-> <<1, 2>>, v6 |-> <<3>>, rel |-> <<"R1", "R6", "R2">>],
+             six  |-> [v4 |-> <<2>>, v6 |-> <<47, 48>>, rel |-> <<"R2">>],     \* other and more IPv6 addresses than `all`:
+                                                                                 \* whatever one message leaves behind in the handler shows
              nd   |-> [v4 |-> <<>>, v6 |-> <<>>, rel |-> <<>>]]        \* message without a Details field at all
 Types == {"Query", "QueryReply", "Update", "UpdateAck", "Moved", "Punch", "Unknown"}
 
@@ -271,8 +273,8 @@ C35Node(am, lhs) == WithStatics(Node0(am, lhs), StaticsOf(lhs))
 Representable(m) == ~(m.enc = 1 /\ m.cl # "" /\ OFam(m.cl) = 6)
 
 \* legitimate warm-up: O and the sender register with a lighthouse; a lighthouse tells a client about O
-WarmUp(am, from) == IF am THEN << Msg(<<"O1">>, "Update", "O1", 1, "v4"), Msg(from, "Update", "", 2, "v4") >>
-                    ELSE << Msg(<<"L0">>, "QueryReply", "O1", 2, "v4") >>
+WarmUp(am, from) == IF am THEN << Msg(<<"O1">>, "Update", "O1", 2, "all"), Msg(from, "Update", "", 2, "v4") >>
+                    ELSE << Msg(<<"L0">>, "QueryReply", "O1", 2, "all") >>
 
 \* a history on a node: per step the message, the expected effects and view, and what the statement permits
 RECURSIVE RunMsgs(_, _)
@@ -292,7 +294,11 @@ Alphabet ==
        Msg(<<"L0">>, "QueryReply", "O1", 2, "all"),    Msg(<<"L0">>, "QueryReply", "S2", 1, "v4"),
        Msg(<<"S1", "S2">>, "QueryReply", "O1", 2, "v4"), Msg(<<"O1">>, "QueryReply", "S1", 1, "all"),
        Msg(<<"L0">>, "Punch", "O1", 2, "all"),         Msg(<<"O1">>, "Punch", "S1", 1, "v4"),
-       Msg(<<"S1", "S2">>, "Punch", "O1", 2, "v4"),    Msg(<<"L0">>, "QueryReply", "", 2, "v4") >>
+       Msg(<<"S1", "S2">>, "Punch", "O1", 2, "v4"),    Msg(<<"L0">>, "QueryReply", "", 2, "v4"),
+       \* the same kinds of message carrying other IPv6 addresses (legitimate and not)
+       Msg(<<"S1", "S2">>, "Update", "S1", 2, "six"),  Msg(<<"O1">>, "Update", "S2", 2, "six"),
+       Msg(<<"O1">>, "Query", "S1", 2, "six"),         Msg(<<"S1", "S2">>, "QueryReply", "O1", 2, "six"),
+       Msg(<<"L0">>, "QueryReply", "S1", 2, "six"),    Msg(<<"O1">>, "Punch", "S1", 2, "six") >>
 
 -----------------------------------------------------------------------------
 (* C36 vectors *)
